@@ -8,6 +8,10 @@
                              = fresh blocks of the new heights ; setAssemblyStateFromOverlaps(src, new, mapper, True)
      Solve(q)                the environment (a physics kernel) writes a new parameter state on the converted assembly
      MapBack                 UniformMeshGeometryConverter.setAssemblyStateFromOverlaps(dst, src, mapper, mapNumberDensities=True)
+     Move(tops)              interior block boundaries of the SAME source object move (Block.setHeight on every block, densities
+                             kept, total height unchanged: a control rod moved, fuel grew into the plenum)
+     MakeUniform2            makeAssemWithUniformMesh again, same source object, same target mesh as the first time: the model
+                             has no memory, so an answer remembered from before the move diverges
      Snap(tops, flag)        Assembly.makeAxialSnapList(refMesh = own mesh) ; Assembly.setBlockMesh(tops, conserveMassFlag = flag)
                              (refused without any change for a one-block assembly: its last topIndex is 0)
    Operators transcribing queries / helpers of the code (the variable-free ones live in RemeshDefs.tla, shared with CoreRemesh)
@@ -55,6 +59,9 @@ CONSTANTS H,             \* height of the initial assembly in mesh units
           Ops,           \* enabled actions
           SnapFlags,     \* subset of {"true", "false", "auto"}
           SnapProfiles,  \* initial profiles from which Snap is explored
+          MoveProfiles,  \* initial profiles from which Move ; MakeUniform2 is explored
+          Geoms,         \* cross-section designs of the assembly (only interpreted by the harness; the laws do not depend on it):
+                         \* "cold" pitch defined by a fluid hexagon at input temperature, "hot" by a thermally expanded solid duct
           MaxLevel
 
 VARIABLES src, dst, stage, orig, pre, hist, ini
@@ -110,13 +117,13 @@ MkAsm(mesh, q, c) ==
 
 (* ---------------- behaviour ---------------- *)
 \* fuel layouts only matter for Snap: they are enumerated for the profiles Snap is explored from, else fixed (fuel assembly, block 1)
-Init == /\ \E m \in Meshes(H, SrcPts), q \in Profiles, c \in FuelChoices \cup {3} :
+Init == /\ \E m \in Meshes(H, SrcPts), q \in Profiles, c \in FuelChoices \cup {3}, gm \in Geoms :
              /\ (q \in SnapProfiles /\ "Snap" \in Ops) => c \in FuelChoices
              /\ ~(q \in SnapProfiles /\ "Snap" \in Ops) => c = 3
              /\ c \div 2 <= Len(m)
              /\ q >= 10 => q - 10 <= Len(m)
              /\ src = MkAsm(m, q, c)
-             /\ ini = [mesh |-> m, prof |-> q, fc |-> c]
+             /\ ini = [mesh |-> m, prof |-> q, fc |-> c, geom |-> gm]
         /\ dst = NoAsm /\ orig = NoAsm /\ pre = NoAsm /\ stage = "orig" /\ hist = <<>>
 
 MakeUniform(mesh, jit) ==
@@ -140,6 +147,21 @@ MapBack ==
     /\ hist' = Append(hist, [n |-> "MapBack"])
     /\ UNCHANGED <<dst, orig, pre, ini>>
 
+Move(t) ==
+    /\ "Move" \in Ops /\ stage = "uniform" /\ pre = NoAsm /\ ini.prof \in MoveProfiles /\ hist[1].jit = "none"
+    /\ Len(t) = K(src) /\ t # src.tops
+    /\ src' = [src EXCEPT !.tops = t]
+    /\ stage' = "moved"
+    /\ hist' = Append(hist, [n |-> "Move", tops |-> t])
+    /\ UNCHANGED <<dst, orig, pre, ini>>
+
+MakeUniform2 ==
+    /\ stage = "moved"
+    /\ dst' = MapInto(src, Fresh(hist[1].mesh, src))
+    /\ orig' = src /\ stage' = "uniform2"
+    /\ hist' = Append(hist, [n |-> "MakeUniform2", mesh |-> hist[1].mesh])
+    /\ UNCHANGED <<src, pre, ini>>
+
 Snap(t, flag) ==
     /\ "Snap" \in Ops /\ stage = "orig" /\ pre = NoAsm /\ ini.prof \in SnapProfiles /\ K(src) >= 2
     /\ src' = SnapTo(src, t, flag)
@@ -160,7 +182,8 @@ DoSolve       == stage = "uniform" /\ \E q \in SolveProfiles : Solve(q)
 CanSnap       == "Snap" \in Ops /\ stage = "orig" /\ pre = NoAsm /\ ini.prof \in SnapProfiles
 DoSnap        == CanSnap /\ K(src) >= 2 /\ \E t \in SnapMeshes(K(src), H), f \in SnapFlags : Snap(t, f)
 DoSnapRefused == CanSnap /\ K(src) = 1 /\ \E t \in SnapMeshes(K(src), H), f \in SnapFlags : SnapRefused(t, f)
-Next == DoMakeUniform \/ DoSolve \/ MapBack \/ DoSnap \/ DoSnapRefused
+DoMove        == stage = "uniform" /\ "Move" \in Ops /\ \E t \in Meshes(Top(src), SrcPts) : Move(t)
+Next == DoMakeUniform \/ DoSolve \/ MapBack \/ DoSnap \/ DoSnapRefused \/ DoMove \/ MakeUniform2
 
 Spec == Init /\ [][Next]_vars
 
@@ -168,45 +191,46 @@ Spec == Init /\ [][Next]_vars
 IsAsm(a) == /\ \A i \in 1..K(a) : Ht(a, i) > 0
             /\ Len(a.N) = K(a) /\ Len(a.P) = K(a)
             /\ \A i \in 1..K(a), p \in Par : a.P[i][p] = Unset \/ Len(a.P[i][p]) = Arity(p)
-TypeOK == /\ stage \in {"orig", "uniform", "solved", "back"}
+IsUniform == stage \in {"uniform", "uniform2"}      \* dst has just been made from src (= orig)
+TypeOK == /\ stage \in {"orig", "uniform", "solved", "back", "moved", "uniform2"}
           /\ IsAsm(src) /\ IsAsm(dst) /\ K(src) >= 1
           /\ (stage = "orig") <=> (dst = NoAsm)
           /\ stage # "orig" => Top(dst) = Top(src)
 
-Converted == stage \in {"uniform", "solved"}
+Converted == stage \in {"uniform", "solved", "uniform2"}
 Solved    == \E k \in 1..Len(hist) : hist[k].n = "Solve"
 
 \* "conserves the number of atoms (hence mass) of every nuclide"
 AtomsConserved == stage # "orig" => \A n \in Nuc : Atoms(dst, n) = Atoms(orig, n)
 \* "conserves the assembly total of every volume-integrated quantity"
 IntegratedConserved ==
-    stage = "uniform" => \A p \in {"I", "IA"} : \A g \in 1..Arity(p) : Tot(dst, p, g) = Tot(orig, p, g)
+    IsUniform => \A p \in {"I", "IA"} : \A g \in 1..Arity(p) : Tot(dst, p, g) = Tot(orig, p, g)
 \* "gives for every other quantity the height-weighted mean of the source values it overlaps"
 MeanOfOverlapped ==
-    stage = "uniform" =>
+    IsUniform =>
         \A p \in {"A", "AA"} : \A j \in 1..K(dst) :
             LET lo == Bot(dst, j)  hi == dst.tops[j]  over == OverIdx(orig, lo, hi) IN
             (\A i \in over : orig.P[i][p] # Unset) =>
                 \A g \in 1..Arity(p) :
                     RMul(dst.P[j][p][g], RInt(hi - lo)) = RSumSet(over, LAMBDA i : RMul(orig.P[i][p][g], RInt(OvH(orig, i, lo, hi))))
 MeanConservesIntegral ==
-    stage = "uniform" => \A p \in {"A", "AA"} : AllSet(orig, p) =>
+    IsUniform => \A p \in {"A", "AA"} : AllSet(orig, p) =>
         \A g \in 1..Arity(p) : Integral(dst, p, g) = Integral(orig, p, g)
 \* "so constant profiles stay constant"
 ConstantStaysConstant ==
-    stage = "uniform" =>
+    IsUniform =>
         /\ \A p \in {"A", "AA", "P"} :
               (AllSet(orig, p) /\ \A i \in 1..K(orig) : orig.P[i][p] = orig.P[1][p]) => \A j \in 1..K(dst) : dst.P[j][p] = orig.P[1][p]
         /\ \A n \in Nuc : (\A i \in 1..K(orig) : orig.N[i][n] = orig.N[1][n]) => \A j \in 1..K(dst) : dst.N[j][n] = orig.N[1][n]
 \* "peak quantities take the largest overlapped value"
 PeakIsLargestOverlapped ==
-    stage = "uniform" => \A j \in 1..K(dst) :
+    IsUniform => \A j \in 1..K(dst) :
         LET over == OverIdx(orig, Bot(dst, j), dst.tops[j]) IN
         /\ \E i \in over : dst.P[j]["P"] = orig.P[i]["P"]
         /\ \A i \in over : RLeq(orig.P[i]["P"][1], dst.P[j]["P"][1])
 \* the unset rule: an unset result only where every overlapped source is unset
 UnsetOnlyFromUnset ==
-    stage = "uniform" => \A p \in {"IA", "AA"} : \A j \in 1..K(dst) :
+    IsUniform => \A p \in {"IA", "AA"} : \A j \in 1..K(dst) :
         (dst.P[j][p] = Unset) <=> (\A i \in OverIdx(orig, Bot(dst, j), dst.tops[j]) : orig.P[i][p] = Unset)
 \* making the converted assembly does not touch the source
 SourceUntouched == Converted => src = orig
@@ -232,7 +256,7 @@ PartitionOf(a) ==
         /\ Bot(a, r[1][1]) <= lo /\ lo < a.tops[r[1][1]]
         /\ Bot(a, r[Len(r)][1]) < hi /\ hi <= a.tops[r[Len(r)][1]]
 \* (a mesh only changes in stage "orig" (Snap) and when the converted assembly is made: checked there, once per mesh)
-BetweenPartitions == (stage = "orig" => PartitionOf(src)) /\ (stage = "uniform" => PartitionOf(dst))
+BetweenPartitions == (stage \in {"orig", "moved"} => PartitionOf(src)) /\ (stage = "uniform" => PartitionOf(dst))
 BlockAtOf(a) == /\ BlockAt(a, 0) = 0
                 /\ \A e \in QPts(a) \ {0} : LET i == BlockAt(a, e) IN i \in 1..K(a) /\ Bot(a, i) < e /\ e <= a.tops[i]
 BlockAtContains == (stage = "orig" => BlockAtOf(src)) /\ (stage = "uniform" => BlockAtOf(dst))
@@ -261,5 +285,5 @@ Pairs(a) == {pr \in QPts(a) \X QPts(a) : pr[1] < pr[2]}
 Queries(a) == [between |-> SetToSeq({[lo |-> pr[1], hi |-> pr[2], r |-> Between(a, pr[1], pr[2])] : pr \in Pairs(a)}),
                at |-> [j \in 1..Cardinality(QPts(a)) |-> <<SortedSeq(QPts(a))[j], BlockAt(a, SortedSeq(QPts(a))[j])>>]]
 Obs == [src |-> AObs(src), dst |-> AObs(dst),
-        q |-> IF stage = "orig" THEN Queries(src) ELSE IF stage = "uniform" THEN Queries(dst) ELSE [between |-> <<>>, at |-> <<>>]]
+        q |-> IF stage \in {"orig", "moved"} THEN Queries(src) ELSE IF stage = "uniform" THEN Queries(dst) ELSE [between |-> <<>>, at |-> <<>>]]
 =========================================================================================================
